@@ -308,6 +308,17 @@ def auto_discharge(P, s):
                             and recv[2][0] == 'call' and recv[2][1].endswith('::is_empty') \
                             and res(a[2][0]) == res_parent(recv[2][2][0]):
                         return 'DC-THEN', 'len-1 inside bool::then on !is_empty of the same vector'
+                if s['kind'] == 'assert' and s['what'] == 'BoundsCheck' and len(s['ops']) == 2:
+                    # slice[k] inside bool::then(len == n / len >= n / len > n): the bounds check of a constant index below n
+                    ln, idx = strip(s['ops'][0]), strip(s['ops'][1])
+                    v = strip(ln[2]) if ln[0] == 'un' and ln[1] == 'PtrMetadata' else (strip(ln[2][0]) if ln[0] == 'call' and ln[1].endswith('::len') and ln[2] else None)
+                    rl = strip(recv[2]) if recv[0] == 'bin' else None
+                    rv_ = None
+                    if rl is not None:
+                        rv_ = strip(rl[2]) if rl[0] == 'un' and rl[1] == 'PtrMetadata' else (strip(rl[2][0]) if rl[0] == 'call' and rl[1].endswith('::len') and rl[2] else None)
+                    if v is not None and rv_ is not None and recv[1] in ('Eq', 'Ge', 'Gt') and strip(recv[3])[0] == 'int' and idx[0] == 'int' and \
+                            (idx[1] < strip(recv[3])[1] or (recv[1] == 'Gt' and idx[1] <= strip(recv[3])[1])) and res(v) == res_parent(rv_):
+                        return 'DC-THEN', 'constant slice index below the length tested by the bool::then receiver'
                 if s['kind'] == 'index':
                     idx = s['ops'][1] if len(s['ops']) > 1 else None
                     v = s['ops'][0]
